@@ -434,6 +434,9 @@ func run(c *core.Ctx) error {
 			confirmHang(c, self, hr, "")
 		}
 	}
+	if len(a.hangs) > 0 {
+		c.Extra("hang_candidates", len(a.hangs))
+	}
 	hzWG.Wait()
 	c.Logf("hazards done at %.1fs", time.Since(t0).Seconds())
 
@@ -605,7 +608,9 @@ func confirmHang(c *core.Ctx, bin string, hr *Result, fixedSig string, expectStu
 		// is decided by the two-sample rule, not by the length of the wait
 		rsc.WatchdogS = 30
 	}
-	for try := 0; try < 3 && !reproduced; try++ {
+	// a hang that depends on where the loops happen to be when Close arrives does not strike on
+	// every run of the seed: several attempts (a run that does not hang takes a second or two)
+	for try := 0; try < 10 && !reproduced; try++ {
 		co := runChild(c, bin, []Scenario{rsc}, 15*time.Minute)
 		if len(co.results) == 1 && co.results[0].Hang != nil {
 			h2 := co.results[0].Hang
